@@ -140,7 +140,14 @@ impl Compiler {
     fn emit_tostring_call(&mut self, reg: u8, span: Span) -> Result<()> {
         let global_idx = self.get_or_create_global_index("__tostring")?;
         self.accessed_globals.insert("__tostring".to_string());
-        self.emit_call_global_cached(reg, global_idx as u8, 1, "__tostring", span);
+        if global_idx <= u8::MAX as u16 {
+            self.emit_call_global_cached(reg, global_idx as u8, 1, "__tostring", span);
+        } else {
+            // CallGlobal holds the global's index in one byte: load the function into the
+            // call's own register and call it by value (its argument is already in reg + 1)
+            self.emit_b(OpCode::GetGlobalIdx, reg, global_idx as i16, span);
+            self.emit_a(OpCode::Call, reg, reg, 1, span);
+        }
         Ok(())
     }
 }
